@@ -20,8 +20,9 @@ LEVEL = "exploration"
 G1 = "model G1\n  Real x(start = 1);\nequation\n  der(x) = -x;\nend G1;\n"
 G2 = "model G2\n  parameter Real k = 2;\n  Real y;\n  Real z;\nequation\n  der(y) = -k * y;\n  z = 2 * y;\nend G2;\n\nmodel BadFlat\n  MissingType m;\nend BadFlat;\n"
 BAD = "model Bad\n  Real x\nequation\n  x = ;\nend Bad;\n"
+BAD2 = "model Bad2\n  Real y;\nequation\n  y = (1;\nend Bad2;\n"
 
-PATHS = ["good/G1.mo", "good/G2.mo", "bad/Bad.mo", "missing.mo", "empty", "good"]
+PATHS = ["good/G1.mo", "good/G2.mo", "bad/Bad.mo", "bad/Bad2.mo", "missing.mo", "empty", "good"]
 MODELS = ["G1", "G2", "BadFlat", "Nope"]
 OUTS = ["out", "no_such_dir", "afile.txt"]
 OPTS = [None, "a=b", "malformed"]
@@ -39,6 +40,7 @@ def fixture():
         (root / "good" / "G1.mo").write_text(G1)
         (root / "good" / "G2.mo").write_text(G2)
         (root / "bad" / "Bad.mo").write_text(BAD)
+        (root / "bad" / "Bad2.mo").write_text(BAD2)
         (root / "afile.txt").write_text("x")
         _FIX["root"] = root
     return _FIX["root"]
@@ -207,8 +209,8 @@ def run(ctx):
             "evaluations": len(invs),
             "distinct_nontrivial": nontriv,
             "exhaustive": True,
-            "rule": "product of PATH subsets (size <= 2 quick / all 63 thorough) of {good file 1, good file 2 (holds a class that fails "
-            "to flatten), file with a syntax error, missing path, empty directory, directory with the good files} x -m sequences of "
+            "rule": "product of PATH subsets (size <= 2 quick / all 127 thorough) of {good file 1, good file 2 (holds a class that fails "
+            "to flatten), two files with a syntax error, missing path, empty directory, directory with the good files} x -m sequences of "
             "length 0..2 (3 thorough) over {G1, G2, BadFlat, Nope} x -t {none, sympy, casadi} x -o {directory, missing, a file} x -O "
             "{none, a=b, malformed} (quick varies -o/-O on the single-path, <= 1 model invocations only). Non-trivial = at least one "
             "model requested.",
